@@ -29,17 +29,24 @@ def main():
     out_dir = os.path.join(V, "seeded")
     os.makedirs(out_dir, exist_ok=True)
     rows = []
+    rounds = [("/tmp/wt", "mut", "M"), ("/tmp/wt2", "mut2", "N")]
     for pid in [f"C{i:02d}" for i in range(1, 20)]:
+      for WTd, resd, letter in rounds:
         for k in (1, 2):
-            src = os.path.join(WT, pid, f"MUTANT{k}")
-            resf = os.path.join(V, "scratch", "mut", f"{pid}.{k}.json")
+            src = os.path.join(WTd, pid, f"MUTANT{k}")
+            resf = os.path.join(V, "scratch", resd, f"{pid}.{k}.json")
+            mid = f"{pid}-{letter}{k}"
+            if not os.path.exists(os.path.join(src, "patch.diff")) and os.path.exists(os.path.join(out_dir, mid, "meta.json")):
+                m = json.load(open(os.path.join(out_dir, mid, "meta.json")))
+                sg = [v for c in m["checks"].values() for v in c["violations"]]
+                rows.append((mid, ", ".join(m["caught_by"]) or "MISSED", "; ".join(sg[:2])[:150], m.get("strengthening") or ""))
+                continue
             if not os.path.exists(os.path.join(src, "patch.diff")) or not os.path.exists(resf):
                 continue
             try:
                 res = json.load(open(resf))
             except Exception:
                 continue
-            mid = f"{pid}-M{k}"
             ok = res.get("tests_pass_with_change") and res.get("demo_with_change") not in (0, None) and res.get("demo_clean") == 0
             if not ok:
                 rows.append((mid, "NOT KEPT (could not confirm: tests/demo)", "", ""))
